@@ -109,6 +109,17 @@ Theorem C16_cmp_antisym : forall a b, str_compare b a = CompOpp (str_compare a b
 Proof. exact str_compare_antisym. Qed.
 Print Assumptions C16_cmp_antisym.
 
+Theorem C16_cmp_trans : forall a b c, str_compare a b = Lt -> str_compare b c = Lt -> str_compare a c = Lt.
+Proof. exact str_compare_trans. Qed.
+Print Assumptions C16_cmp_trans.
+
+Theorem C16_cmp_total_order : forall a b,
+  (str_compare a b = Lt /\ a <> b /\ str_compare b a = Gt) \/
+  (str_compare a b = Eq /\ a = b /\ str_compare b a = Eq) \/
+  (str_compare a b = Gt /\ a <> b /\ str_compare b a = Lt).
+Proof. exact str_compare_total_order. Qed.
+Print Assumptions C16_cmp_total_order.
+
 (* print_to in closed form when the target is not among the arguments *)
 Theorem C16_print_to_closed_form : forall ps s pos, Forall (fun p => p <> PSelf) ps ->
   spec_print s pos ps =
